@@ -42,12 +42,12 @@ CLAIMED = {
             "6.C10"),
     "C11": ("exploration",
             SIM + "nodes A/B/C over a simulated disk (in-memory files, sparse short reads, real files): write in either format, convert, reload, byte-identical re-serialisation and cross prove/verify between original and reloaded systems; independent seeded setups per worker",
-            "World O, library level: node A (a real proving system; an independent seeded setup and different dimensions per worker, depth != batch) writes compressed and raw files through the simulated disk; node B reloads through a plain reader, a reader with sparse legal short reads (incl. bufio's 4 MiB refill pattern) or ReadSystemFromFile on a real file; node C converts compressed to raw, which must be byte-identical to A's raw file. The reloaded system must report A's dimensions, re-serialise byte-identically in a tape-chosen format, prove a fresh valid batch that A verifies, verify a proof A made, reject a wrong hash and still reject a proof of the other mode's system. The CLI pass (setup -> prove / verify through real files) runs under C19.",
+            "World O, library level: node A (a real proving system; an independent seeded setup per worker, dimensions spread over the corners of the space: deletion batches larger than the tree (d2/b5, d1/b3), the largest depths (insertion d32, deletion d31), a batch that is not a power of two; depth != batch) writes compressed and raw files through the simulated disk; node B reloads through a plain reader, a reader with sparse legal short reads (incl. bufio's 4 MiB refill pattern) or ReadSystemFromFile on a real file; node C converts compressed to raw, which must be byte-identical to A's raw file. The reloaded system must report A's dimensions, re-serialise byte-identically in a tape-chosen format, prove a fresh valid batch that A verifies, verify a proof A made, reject a wrong hash and still reject a proof of the other mode's system. The CLI pass (setup -> prove / verify through real files) runs under C19.",
             "Trusted: gnark's own key / constraint-system codecs below the repository's framing; seeded sampling of setups.",
             "6.C11"),
     "C12": ("exploration",
             SIM + "three construction paths as nodes (setup, import with exported keys, R1CS) in-process and as fresh `gnark-mbu r1cs` processes under tape-chosen GOMAXPROCS; SHA-256 of the serialised constraint system compared across all; SAMPLED, not controlled (stated limit)",
-            "World O, process level: per run one (mode, depth, batch): two in-process compilations, 2..3 fresh CLI processes with GOMAXPROCS in {1,2,4,16}, the setup path and the import path (with A's exported pk/vk) must all serialise to the same bytes; the imported system proves a fresh valid batch that A's verifying key accepts; the public witness has exactly one element that follows the input hash alone; deletion at depth >= 32 is refused by BuildR1CS, Setup, Import and by `gnark-mbu setup` / `r1cs` (non-zero exit, no output file) while depth 31 still compiles. Limit, stated plainly: map-iteration order and OS scheduling of separate processes are behind no seam, so this nondeterminism is sampled (>= 5 compilations over >= 3 processes per configuration) rather than owned by the scheduler; a difference replays by class.",
+            "World O, process level: per run one (mode, depth, batch): two in-process compilations, 2..3 fresh CLI processes with GOMAXPROCS in {1,2,4,16}, the setup path and the import path (with A's exported pk/vk) must all serialise to the same bytes; the imported system proves a fresh valid batch that A's verifying key accepts; the public witness has exactly one element that follows the input hash alone; a fifth of the runs build a pair of dimensions one after the other in one process, the second chosen so that a lossy summary of (depth, batch) - decimal concatenation, sum, product, swapped order - coincides with the first's, and compare each with a fresh process (a build that comes second in a process is a run like any other); deletion at depth >= 32 is refused by BuildR1CS, Setup, Import and by `gnark-mbu setup` / `r1cs` (non-zero exit, no output file) while depth 31 still compiles. Limit, stated plainly: map-iteration order and OS scheduling of separate processes are behind no seam, so this nondeterminism is sampled (>= 5 compilations over >= 3 processes per configuration) rather than owned by the scheduler; a difference replays by class.",
             "Trusted: SHA-256; gnark serialisation as the observation of the constraint system.",
             "6.C12"),
     "C13": ("exploration",
@@ -57,22 +57,22 @@ CLAIMED = {
             "6.C13"),
     "C14": ("fault_enumeration",
             SIM + "the real server.Run / RunningJob / net/http Shutdown inside a synctest bubble over a simulated network; the stop request is a scheduler action enumerated over every step of the bare start/stop schedule x starved task, and seeded (uniform, sticky, PCT, starve-one) with requests in flight; restart cycles on the same addresses",
-            "World S: the instrumented copy of the current tree (a yield before every statement of server/, wrapped_http/, logging/, prover/ request-path code; ListenAndServe split into its library steps pre-check / bind / yield / Serve over simnet) runs in a synctest bubble. Runs 0..1199 enumerate the stop position (every scheduler step 0..119) times the starved task (0..8, plus first-enabled) of the bare start/stop; further runs place stop by tape, incl. relative to a request's arrival so that it lands while handlers are parked mid-proof, over up to 3 start/stop cycles. Oracle: when AwaitStop returns both addresses bind at once; stop/await never get stuck (nothing enabled and 14 s of fake time change nothing); every request whose header block had been taken up by the server when stop was requested receives its complete, correct response (own decoder + Groth16 verify); no goroutine is left blocked at the end of the bubble. Found the bind->serve window defect on the pinned tree (fixed, see KNOWN_FINDINGS). The SIGINT / exit-status clause runs as four extra runs of the same check at process level: `gnark-mbu start` (built from the current tree) on loopback ports, 1..2 valid requests, SIGINT once the in-flight gauge shows a request inside the handler, then: complete 200 with a verifying proof, exit status 0, both ports bindable at once (real sockets, uncontrolled schedule, timing-independent assertions).",
+            "World S: the instrumented copy of the current tree (a yield before every statement of server/, wrapped_http/, logging/, prover/ request-path code; ListenAndServe split into its library steps pre-check / bind / yield / Serve over simnet) runs in a synctest bubble. Runs 0..1199 enumerate the stop position (every scheduler step 0..119) times the starved task (0..8, plus first-enabled) of the bare start/stop; further runs place stop by tape, incl. relative to a request's arrival so that it lands while handlers are parked mid-proof, over up to 3 start/stop cycles. Oracle: when AwaitStop returns both addresses bind at once; stop/await never get stuck (nothing enabled and 14 s of fake time change nothing); every request whose header block had been taken up by the server when stop was requested receives its complete, correct response (own decoder + Groth16 verify); no goroutine is left blocked at the end of the bubble. Found the bind->serve window defect on the pinned tree (fixed, see KNOWN_FINDINGS). The SIGINT / exit-status clause runs as twelve extra runs of the same check at process level: `gnark-mbu start` (built from the current tree) on loopback ports, 1..2 valid requests (in half of the runs one of them over a raw connection whose body is completed only after the signals, so that it is inside the handler for the whole drain), SIGINT once the in-flight gauge shows a request inside the handler, in half of the runs repeated once or twice 1-300 ms later, then: complete 200 with a verifying proof, exit status 0, both ports bindable at once (real sockets, uncontrolled schedule, timing-independent assertions).",
             "Trusted: testing/synctest quiescence and fake clock (go1.26.8); simnet's model of bind/accept/close; yields only in repository code (library code between two yields is atomic).",
             "6.C14"),
     "C19": ("exploration",
             SIM + "command histories of fresh gnark-mbu processes (seeded crypto/rand via the tag-guarded hook) over shared files with faults between steps; reference verdict from an independent decoder, the contract hash and gnark's verifier under the file's verifying key",
-            "World O, process level: per worker `gnark-mbu setup` makes an insertion and a deletion keys file (dimensions chosen so that gen-test-params roots have a leading zero byte on half of the workers); per run 5..10 commands: gen-test-params (stdout exactly one JSON line whose batch is provable), prove (exit 0 iff provable under the keys, stdout exactly one proof JSON + newline and nothing on failure), verify (exit 0 iff the reference verdict says valid), with faults: tampered / reordered / truncated proof JSON, neighbouring, foreign, non-numeric hashes and hash+r, keys of the other mode, absent / misspelt / mismatching --mode, missing and truncated keys files, invalid and truncated parameters. A known-but-mismatching mode is not pinned by the property beyond 'success implies a proof valid under the keys' and is asserted as such.",
+            "World O, process level: per worker `gnark-mbu setup` makes an insertion and a deletion keys file (dimensions chosen so that gen-test-params roots have a leading zero byte on half of the workers); per run 5..10 commands: gen-test-params (stdout exactly one JSON line whose batch is provable), prove (exit 0 iff provable under the keys, stdout exactly one proof JSON + newline and nothing on failure), verify (exit 0 iff the reference verdict says valid), with faults: tampered / reordered / truncated proof JSON, neighbouring, foreign, non-numeric hashes and hash+r, keys of the other mode, absent / misspelt / mismatching --mode, missing and truncated keys files, invalid parameters, and what a failed upstream stage leaves on stdin (nothing, blank space, a document cut anywhere). A known-but-mismatching mode is not pinned by the property beyond 'success implies a proof valid under the keys' and is asserted as such.",
             "Trusted: the repository's file reader for loading the reference verifying key; kernel scheduling of processes is uncontrolled (assertions are on exit status and stdout only).",
             "6.C19"),
     "C20": ("exploration",
             SIM + "conservation law over seeded concurrent request mixes with metrics scrapes scheduled as ordinary actions (also while handlers are parked mid-proof); final equality against the simulator's tally, mid-run bounds",
-            "World S: 2..7 requests of all kinds and methods overlap under tape-chosen scheduling; 1..2 scrapes of the separate metrics address are scheduled like any other client action and a final scrape follows the last response. Final: http_requests_total{endpoint_pattern=\"/prove\"} per (method label, code) equals the simulator's tally of responses sent, nothing is reported that was never sent, the sum equals the number of requests, the in-flight gauge exists and is 0. Mid-run: the scrape succeeds while k handlers are parked, and each total lies between responses already received and requests begun. Fault-injecting configurations (clients leaving before the response) are separate from fault-free ones and only widen the tally by an explicit slack. Run 1 is the uncontrolled companion mode (free-running goroutines on loopback): its scrape history is checked with porcupine against a per-(method, code) counter model (each request an increment inside its [call, return] interval, each scrape a read; Unknown is inconclusive, never reported), plus exact conservation at the final scrape.",
+            "World S: 2..7 requests of all kinds and methods overlap under tape-chosen scheduling; 1..2 scrapes of the separate metrics address are scheduled like any other client action and a final scrape follows the last response. Final: http_requests_total{endpoint_pattern=\"/prove\"} per (method label, code) equals the simulator's tally of responses sent, nothing is reported that was never sent, the sum equals the number of requests, the in-flight gauge exists and is 0. Mid-run: the scrape succeeds while k handlers are parked, and each total lies between responses already received and requests begun. Availability while proofs are computed is decided by the scheduler, not by timing: in half of the runs, once a task is parked in front of the Groth16 prover call, a scrape is delivered and only tasks not about to compute a proof are run (then 5 s of fake time pass); a scrape still unanswered can only be answered after a proof computation and is reported. Fault-injecting configurations (clients leaving before the response) are separate from fault-free ones and only widen the tally by an explicit slack. Run 1 is the uncontrolled companion mode (free-running goroutines on loopback): its scrape history is checked with porcupine against a per-(method, code) counter model (each request an increment inside its [call, return] interval, each scrape a read; Unknown is inconclusive, never reported), plus exact conservation at the final scrape.",
             "Trusted: Prometheus text exposition parsing; client_golang's documented method-label spelling.",
             "6.C20"),
     "C15": ("fault_enumeration",
             SIM + "crash points of the write of a real proving-system file enumerated over a simulated disk (crash after k bytes / ENOSPC at k), both formats; prefix read back through three reader styles; error / no panic / no hang oracle",
-            "World O: the real WriteTo / WriteRawTo run through a simulated disk that crashes after k bytes (only the prefix survives) or reports ENOSPC at k (the write must report it). Run indices enumerate, for both formats, every offset of the 8-byte header, the first 256 bytes of and +-4 around each section (pk | vk | constraint system, boundaries found by a counting writer), a window of Write-call boundaries (array boundaries inside the keys) and the last 6 bytes; further runs draw uniform offsets. Each prefix is read by UnsafeReadFrom from memory, through a reader with legal short reads, or by ReadSystemFromFile from a real prefix file: the result must be an error, never a panic, never a system, within a watchdog. The CLI consequence (prove on a truncated keys file exits non-zero) is exercised under C19.",
+            "World O: the real WriteTo / WriteRawTo run through a simulated disk that crashes after k bytes (only the prefix survives) or reports ENOSPC at k (the write must report it). Run indices enumerate, for both formats, every offset of the 8-byte header, the first 256 bytes of and +-4 around each section (pk | vk | constraint system, boundaries found by a counting writer), a window of Write-call boundaries (array boundaries inside the keys) and the last 6 bytes (the cut points the property names - header, within a byte of a section boundary, the tail - come first); further runs draw uniform offsets. Each prefix is read by UnsafeReadFrom from memory, through a reader with legal short reads, or by ReadSystemFromFile from a real prefix file (structural cut points through all three): the result must be an error, never a panic, never a system, within a watchdog. A tenth of the runs hand the prefix file to the real CLI (start, prove, verify, export-vk, export-solidity, convert-to-raw): non-zero exit, no panic, no output. A crash in a library goroutine started by the repository's reader is attributed to the reader (creator chain of the goroutine dump).",
             "Trusted: truncation-to-prefix as the crash model (what the property quantifies over); quick tier covers a shuffled initial segment of the enumeration, thorough all of it.",
             "6.C15"),
     "C18": ("exploration",
